@@ -264,10 +264,12 @@ func (g *CommonValidator) validateUniqueValue(
 			)
 			diagToReturn = &diag
 		}
+
+		// Mark this value as used by this annotation type. Only annotations that require a unique value
+		// take part - '@Security(token)' must not make a '@Header(token)' on the same route a duplicate
+		uniqueValues[attr.Value] = attr.Name
 	}
 
-	// Mark this value as used by this annotation type
-	uniqueValues[attr.Value] = attr.Name
 	return diagToReturn
 }
 
